@@ -132,8 +132,12 @@ def _collect_pseudo(node, out, ctx_op=None):
             _collect_pseudo(a, out, "arg")
 
 
-def _classify_eq_mismatch(eq):
+def _classify_eq_mismatch(eq, shock_names=()):
     """mechanism key for an equation whose value differs: names the pseudofunction + operator context if one is involved"""
+    if shock_names:
+        occ = E.occurrences(eq["lhs"]) | E.occurrences(eq["rhs"])
+        if any(n in shock_names and sh != 0 for (n, sh) in occ):
+            return "equation-value:transition-shock-with-time-shift"
     found = set()
     for side in ("lhs", "rhs"):
         _collect_pseudo(eq[side], found)
@@ -229,6 +233,10 @@ def check_model_against_spec(c, model, case):
                     if channel == "reject-or-right":
                         c.event("from_string", "rejected-at-evaluation", key=None)
                         return
+                    shk = {q["name"] for q in spec["tshocks"]}
+                    if any(_classify_eq_mismatch(e_, shk) == "equation-value:transition-shock-with-time-shift" for e_ in spec["teqs"]):
+                        vio("equation-value:transition-shock-with-time-shift", f"{which} equator raised {type(exc).__name__}: {exc} (an equation holds a transition shock with a time shift)")
+                        return
                     vio(f"equation-eval:raised:{type(exc).__name__}", f"{which} equator raised {type(exc).__name__}: {exc}")
                     return
                 scale = 1.0 + np.abs(want)
@@ -241,7 +249,7 @@ def check_model_against_spec(c, model, case):
                     continue
                 i = int(np.flatnonzero(bad)[0])
                 eq = eqs[i]
-                k = _classify_eq_mismatch(eq)
+                k = _classify_eq_mismatch(eq, {q["name"] for q in spec["tshocks"]} if i < len(spec["teqs"]) else ())
                 if channel == "reject-or-right":
                     k = "deep-pseudofunction:silently-wrong:" + k.split(":", 1)[1]
                 vio(k, f"{which} equation #{i} evaluates to {got[i]!r}, the equation as written gives {want[i]!r}",
@@ -340,6 +348,8 @@ def directed_cases():
         "diff-times": E.bin_("*", E.par("k"), E.pseudo("diff", yz, -1)),
         "movavg-divide": E.bin_("/", E.par("k"), E.pseudo("mov_avg", yz, -3)),
     }
+    # known finding: a transition shock with a time shift, e_y[-1], becomes (e_y+ant_e_y)[-1] -- an index, not a shift
+    variants["shock-with-lag"] = E.bin_("+", E.bin_("*", E.par("k"), E.var("y", -1)), E.bin_("*", E.num(0.5), E.var("e_y", -1)))
     for name, rhs in variants.items():
         spec = json.loads(json.dumps(base))
         spec["teqs"] = [
